@@ -176,7 +176,7 @@ def bs_vanna(s, t, k, r, q, v, option_type_value):
     kk = k * np.exp(-r*t)
     d1 = np.log(ss/kk) / v_sqrt_t + v_sqrt_t / 2.0
     d2 = d1 - v_sqrt_t
-    vanna = np.exp(-q*t) * sqrt_t * n_prime_vect(d1) * (d2/v)
+    vanna = -np.exp(-q*t) * n_prime_vect(d1) * d2 / v
     return vanna
 
 ###############################################################################
